@@ -1,4 +1,5 @@
 import ClusterVerif.Spec.C14
+import ClusterVerif.Spec.C14Crdt
 import Driver.Parse
 import Driver.C14Crash
 import Driver.C14Start
@@ -90,6 +91,20 @@ def modelExpc (i : PinsIn) (src : PinMap) : Res × PinMap :=
       | some js => importState [] js false)
   | r => r
 
+/-- raft export → the crdt manager's import onto a datastore that holds `prior` under the crdt namespace
+    (and under another one) → offline read of the crdt namespace -/
+def modelCrdt (i : PinsIn) (src : PinMap) : Res × PinMap :=
+  let ds := Crdt.ofPins 0 (fromList i.prior) ++ Crdt.ofPins 1 (fromList i.prior)
+  match exportStream src with
+  | none => (.err, Crdt.offlineRead 0 ds)
+  | some js => let r := Crdt.importCrdt 0 ds js (!harmless i.damage); (r.1, Crdt.offlineRead 0 r.2)
+
+def modelOthersKept (i : PinsIn) (src : PinMap) : Bool :=
+  let ds := Crdt.ofPins 0 (fromList i.prior) ++ Crdt.ofPins 1 (fromList i.prior)
+  match exportStream src with
+  | none => true
+  | some js => (Crdt.importCrdt 0 ds js (!harmless i.damage)).2.filter (fun e => e.ns != 0) == Crdt.ofPins 1 (fromList i.prior)
+
 def rtAgrees (obs : Option RT) (model : Res × PinMap) : Bool :=
   match obs with
   | none => true
@@ -115,6 +130,8 @@ def answerPins (ws : List String) : String :=
       pure (i, o)
     -- a cut Marshal stream (only in damaged cases): whatever was loaded comes from the stream
     let marx : Option RT := ((field "marx" post).bind parseRT).getD none
+    -- the crdt datastore read offline right after the real crdtStateManager.ImportState (only in the crdt chain)
+    let crdtO : Option RT := ((field "crdt" post).bind parseRT).getD none
     match parsed with
     | none => "bad-case pins-parse"
     | some (i, o) =>
@@ -123,14 +140,19 @@ def answerPins (ws : List String) : String :=
         (if i.gen.any (fun p => !p.origins.isEmpty) then "-origins" else "") ++
         (if !harmless i.damage then "-damaged" else if i.damage != 0 then "-reshaped" else "") ++
         (if i.prior.isEmpty then "" else "-prior") ++ (if i.gen.isEmpty then "-empty" else "") ++
-        (if o.start.isSome then "-start" else "") ++
+        (if o.start.isSome then "-start" else "") ++ (if crdtO.isSome then "-crdtread" else "") ++
         (if ((dm.toNat?).getD 0) / 100 % 10 == 2 then "-badger" else if o.expc.isSome then "-leveldb" else "")
-      let cs := pinsClauses i o
+      let cs := pinsClauses i o ++ crdtClauses i o.src crdtO
       if !allHold cs then "propfail " ++ failedNames cs ++ " arm=" ++ arm else
       let src := fromList i.gen
       let same : Res × PinMap := (.ok src, unmarshal (fromList i.prior) src)
       let checks : List (String × Bool) :=
         [("src", o.src == src), ("exp", rtAgrees o.exp (modelExp i src)), ("expc", rtAgrees o.expc (modelExpc i src)),
+         ("crdt", rtAgrees crdtO (modelCrdt i src)),
+         -- the key outside the crdt namespace: the model's Clean keeps every entry of another namespace
+         ("oth", match field "oth" post with
+            | none => true
+            | some w => w == "-" || (w == "1") == modelOthersKept i src),
          ("mar", rtAgrees o.mar same), ("snap", rtAgrees o.snap same), ("start", rtAgrees o.start same),
          ("marx", match marx with
             | none => true
